@@ -18,9 +18,12 @@
     rows   = list of q.n.a.q2.k.v : in state q, method n with argument a moves to q2 and returns value v (k = o)
              or raises exception v (k = e); the call is logged first.  No row: KeyError (exception 0), state kept.
   pre = 1: the serializer's dumpsCall raises on the client (exception 109).
+  `batch` also evaluates the transcription of the source (PyroModel/BatchSrc.lean over Gen/C11.lean) on the same request and
+  appends ` TRANSCRIPTION-DIFFERS …` to the line when it disagrees with the hand-written model (never on a proved tree).
   All lists are comma separated, "-" = empty.
 -/
 import PyroModel.Batch
+import PyroModel.BatchSrc
 import Driver.Util
 
 open Pyro Pyro.Batch Driver
@@ -121,7 +124,13 @@ def step : List String → String
       let o := tabObj ⟨g, b, r⟩
       let p : Option Nat := if pre == "1" then some 109 else none
       let (s, seen) := clientBatch p o (ow == "1") (q0, []) cs
-      s!"q={s.1} log={showLog s.2} seen={showSeen seen}"
+      -- the same request through the TRANSCRIPTION of the source (Gen/C11.lean: BatchProxy.__call__, _pyroInvokeBatch, the
+      -- batch branch of handleRequest, the results generator); shown only when it differs from the hand-written model
+      let items := cs.map (fun c => PV.triple true true c.1 c.2)
+      let (s2, kept, seen2) := clientBatchSrc pvOps ⟨100, 110, 111, 112⟩ id p (pvObj o 102) (ow == "1") (q0, []) items
+      let same := s2 == s && decide (seen2 = seen) && kept == keptCalls items seen
+      let src := if same then "" else s!" TRANSCRIPTION-DIFFERS q={s2.1} log={showLog s2.2} seen={showSeen seen2} kept={kept.length}"
+      s!"q={s.1} log={showLog s.2} seen={showSeen seen}{src}"
     | _, _, _, _, _ => "bad-op"
   | ["prog", pre, q0, gate, bad, rows, ops] =>
     match q0.toNat?, parseGate gate, parseNatList bad, parseRows rows, parseOps ops with
